@@ -274,11 +274,15 @@ Proof.
   subst kds. cbn zeta in E. destruct E as [E ->]. unfold get_assign in E. rewrite Hg in E.
   cbn [events_seq]. rewrite oapp_nil_r.
   assert (Hlam : forall lam, (forall c, lam <> Constant c) ->
-            events (if n_is_method fn && String.eqb name "__init_subclass__" then call (Name "classmethod") [decorate (rev decs) lam] else decorate (rev decs) lam)
+            events (hook_wrap p (n_is_method fn) name decs (decorate (rev decs) lam))
             = oapp (events_seq decs) (events lam)).
-  { intros lam Hl. destruct (n_is_method fn && String.eqb name "__init_subclass__").
-    - rewrite events_call1 by (apply decorate_not_const; exact Hl).
-      rewrite decorate_events by exact Hl. rewrite rev_involutive. cbn [events]. apply oapp_nil_l.
+  { intros lam Hl. unfold hook_wrap.
+    assert (Hw : forall d, events d = Some [] ->
+              events (call d [decorate (rev decs) lam]) = oapp (events_seq decs) (events lam)).
+    { intros d Hdv. rewrite events_call1 by (apply decorate_not_const; exact Hl).
+      rewrite decorate_events by exact Hl. rewrite rev_involutive, Hdv. apply oapp_nil_l. }
+    destruct (n_is_method fn && is_class_hook name).
+    - destruct decs as [|d0 dr]; apply Hw; reflexivity.
     - rewrite decorate_events by exact Hl. rewrite rev_involutive. reflexivity. }
   injection E as <-. cbn [events]. rewrite Hlam by (intros c; discriminate).
   unfold src_def. f_equal. cbn [events]. rewrite evl_events_seq. f_equal.
